@@ -181,6 +181,14 @@ def make_book(rng):
             put(f'=COUNTIFS({tgt},">0",{cr},{c1})', missized=bad)
         else:
             put(f'={fn}({tgt},{cr},{c1})', missized=bad)
+    # SUMIF derives its target from the geometry of the criteria area: blocks of several rows AND columns, horizontal vectors, the
+    # target named by its first cell, in full, or left out
+    for _ in range(8):
+        cr, tgt = rng.choice([('A1:B4', 'D1'), ('A1:B4', 'D1:E4'), ('A1:B4', None), ('B3:C8', 'D3'), ('A1:C3', 'D1:E3'), ('A12:F12', 'A13'), ('A12:F12', 'A13:F13'),
+                              ('B12:E12', None), ('A1:B8', 'D1:E8'), ('A2:B3', 'E5'), ('A1:C2', 'D4:E5')])
+        col = 'A' if cr[0] == 'A' or '12' in cr else 'B'
+        c1 = criterion(rng, col)
+        put(f'=SUMIF({cr},{c1}' + (f',{tgt})' if tgt else ')'), missized=False)
     return wbspec.spec(wbspec.sheet('S', cells)), forms
 
 
